@@ -68,6 +68,43 @@ pub fn failure(f: Fmt, t: &TD, variant: u64) -> Option<String> {
             }
         }
     }
+    // the batch entry point: the sugared text after a near-duplicate of itself in which one interval /
+    // suffixed-placeholder token is split by a blank (`+12` -> `+1 2`, `_b` -> `_ b`: other tokens, other
+    // meaning or none) must still mean what it means alone
+    let (ip, pp) = (e.atom.prefix_interval, e.atom.prefix_placeholder);
+    let split: Vec<String> = sugared
+        .iter()
+        .map(|tok| {
+            let cs: Vec<char> = tok.chars().collect();
+            for p in [ip, pp] {
+                let pl = p.chars().count();
+                if !p.is_empty() && tok.starts_with(p) && cs.len() >= pl + 2 - (p == pp) as usize && cs.len() > pl {
+                    let cut = if p == pp { pl } else { pl + 1 };
+                    if cut < cs.len() {
+                        return format!("{} {}", cs[..cut].iter().collect::<String>(), cs[cut..].iter().collect::<String>());
+                    }
+                }
+            }
+            tok.clone()
+        })
+        .collect();
+    if split != sugared {
+        let batch = vec![join(&split), join(&sugared), join(&plain)];
+        let r = crate::guard::observe(|| {
+            let mut joined = String::new();
+            parse_multi_any(e, &batch, &mut joined).into_iter().map(|r| r.map(|v| canon_real_narsese(&v)).ok()).collect::<Vec<_>>()
+        });
+        match r {
+            crate::guard::Obs::Ret(rs) => {
+                for i in 1..3 {
+                    if rs.get(i).cloned().flatten().as_deref() != Some(want.as_str()) {
+                        return Some(format!("{:?} at position {} of the parse_multi batch {:?} = {:?} (documented meaning {})", batch[i], i, batch, rs.get(i), want));
+                    }
+                }
+            }
+            crate::guard::Obs::Panic(p) => return Some(format!("parse_multi panicked on {:?}: {}", batch, p)),
+        }
+    }
     None
 }
 
